@@ -566,7 +566,13 @@ func (c *StructCode) Filter(query *FieldQuery) Code {
 	}
 	fields := make([]*StructFieldCode, 0, len(c.fields))
 	for _, field := range c.fields {
-		query, exists := fieldMap[field.key]
+		sub, exists := fieldMap[field.key]
+		embedded := false
+		if !exists && field.getAnonymousStruct() != nil {
+			// the members an embedded struct contributes are members of this
+			// object: they are selected by their own names
+			sub, exists, embedded = &FieldQuery{Name: field.key, Fields: query.Fields}, true, true
+		}
 		if !exists {
 			continue
 		}
@@ -583,8 +589,13 @@ func (c *StructCode) Filter(query *FieldQuery) Code {
 			isAddrForMarshaler: field.isAddrForMarshaler,
 			isNextOpPtrType:    field.isNextOpPtrType,
 		}
-		if len(query.Fields) > 0 {
-			fieldCode.value = fieldCode.value.Filter(query)
+		if len(sub.Fields) > 0 {
+			fieldCode.value = fieldCode.value.Filter(sub)
+		}
+		if embedded {
+			if st := fieldCode.getAnonymousStruct(); st == nil || len(st.fields) == 0 {
+				continue // none of its members is selected
+			}
 		}
 		fields = append(fields, fieldCode)
 	}
